@@ -340,6 +340,12 @@ def propagateList (cfg : ReflectCfg) : Stack → List Node → Stack
   | s, n :: r => propagateList cfg (propagateNode cfg s n) r
 end
 
+/-- which elements the v-once test at the top of `evaluate` applies to: not the looped ones (tested per instance) and not chain members,
+    head included (tested when the chain selects them; `v-pre` switches the chain directives off, so such an element is tested here) -/
+def onceHereOf (attrs : List Attr) : Bool :=
+  hasAttr attrs (S "v-once") && !hasAttr attrs (S "v-for") &&
+    (hasAttr attrs (S "v-pre") || (!hasAttr attrs (S "v-if") && !hasAttr attrs (S "v-else-if") && !hasAttr attrs (S "v-else")))
+
 /-- the v-once rule for one element: `none` = already rendered in this render (skip it), `some st'` = go on, with the id recorded when the
     element is marked (an element that also carries v-for is checked per iteration, on its clones) -/
 def onceGate (st : St) (a : List Attr) : Option St :=
@@ -470,7 +476,9 @@ def evalList (W : World) : Nat → Ctx → St → List Node → R (List Node)
     | .doctype d => prepend [.doctype d] (evalList W f ctx st rest)
     | .elem tag attrs kids =>
       -- v-once (checked per iteration on the clones when the element also carries v-for)
-      let onceHere := hasAttr attrs (S "v-once") && !hasAttr attrs (S "v-for")
+      -- a chain member - the head included - is gated when it is SELECTED, not when it is merely reached (fix: a head whose v-if was
+      -- false, or a stray v-else, used up its v-once)
+      let onceHere := onceHereOf attrs
       let id := getAttr attrs (S "v-once-id")
       if onceHere && st.seen.contains id then evalList W f ctx st rest
       else
@@ -484,7 +492,10 @@ def evalList (W : World) : Nat → Ctx → St → List Node → R (List Node)
           bindE (chainSelect (evalCondition W.P st.stack) (getAttr attrs (S "v-if")) rest) (fun ps =>
             match ps.1 with
             | .none => evalList W f ctx st (rest.drop ps.2)
-            | .member 0 => bindR (evalAsElement W f ctx st tag attrs kids) (fun res st1 => prepend res (evalList W f ctx st1 (rest.drop ps.2)))
+            | .member 0 =>
+              (match onceGate st attrs with
+               | none => evalList W f ctx st (rest.drop ps.2)
+               | some st' => bindR (evalAsElement W f ctx st' tag attrs kids) (fun res st1 => prepend res (evalList W f ctx st1 (rest.drop ps.2))))
             | .member (i + 1) =>
               -- a v-else-if / v-else member is only reached from here: the v-once rule is applied to it when it is selected (fix: onceAlreadyRendered)
               match rest[i]? with
